@@ -7,30 +7,38 @@ CFG = {
     "theory_files": ["theories/Tri/Delaunay.v", "theories/Tri/DelaunayProofs.v",
                      "theories/Tri/BowyerWatson.v", "theories/Tri/BowyerWatsonProofs.v",
                      "theories/Tri/DelaunayChar.v", "theories/Tri/BowyerWatsonComplete.v"],
-    "level_text": "Coq theorems about an exact-rational model of triangulation.BowyerWatson: vertex identity, common "
-                  "clockwise winding with non-zero area under general position, independence of the Go map's iteration "
-                  "order (for every schedule), the repaired super triangle strictly contains every input (all scales and "
-                  "offsets) while the pinned one does not; the geometric core of Bowyer-Watson: the triangle around the new "
-                  "point is bad, every boundary edge of the cavity sees the new point on its inner side (pencil-of-circles "
-                  "monotonicity), one insertion preserves the empty-circumcircle invariant, and hence "
-                  "(bw_delaunay_partial) the whole run returns clockwise triangles with empty circumcircles GIVEN only the "
-                  "combinatorial invariant closed_run (edge closure at every step); a Delaunay checker proved sound AND "
-                  "complete for the four conjuncts of the statement. The checker is run (vm_compute) on every output of "
-                  "the Go code; the model is tied to the Go code by requiring the same triangle set on exact / "
-                  "sign-faithful inputs, and closed_run is decided (proved decision procedure) on every model-compared input",
-    "level_note": "Trusted: Coq kernel + vm_compute; hand-written model tied by differential correspondence only; "
-                  "full Delaunay correctness of the algorithm (bw_delaunay) is NOT proved: open are the preservation of "
-                  "edge closure by an insertion (reduced to edge_unique + boundary_chains by insert_keeps_closed_partial; "
-                  "closed_run is checked per tested input) and the non-overlap of the algorithm's output (checked per case "
-                  "by the certified checker); coverage of the convex hull fails on /repo HEAD (known finding, "
-                  "bw_coverage_refuted)",
+    "level_text": "Coq theorems about an exact-rational model of triangulation.BowyerWatson. bw_delaunay: for three or more "
+                  "points with (input ++ super triangle) in strong general position (no 3 collinear, no 4 concyclic; "
+                  "decidable, gp_strong_decidable) the model's output meets the whole statement - only input indices, "
+                  "one winding with non-zero area, pairwise disjoint interiors, no input point strictly inside a "
+                  "circumcircle - under every iteration order of the Go map (bw_delaunay_any_map_order); the run and the "
+                  "output are characterised exactly (bw_states_exact: the map always holds THE Delaunay triangulation of "
+                  "the inserted points; bw_output_exact: a triangle is returned iff its circle is also empty of the three "
+                  "super-triangle vertices - the known finding with both directions); edge closure at every step "
+                  "(bw_edge_closure, the former open hypothesis M1) and non-overlap (M2) are proved. Also: vertex identity, "
+                  "winding under plain general position, the repaired super triangle strictly contains every input at all "
+                  "scales while the pinned one does not, the layer lemmas (pencil of circles, star-shaped cavity), a "
+                  "Delaunay checker proved sound AND complete for the four conjuncts. The checker is run (vm_compute) on "
+                  "every output of the Go code; the model is tied to the Go code by requiring the same triangle set on "
+                  "exact / sign-faithful inputs, the same super triangle, the same answers of the three exported predicates "
+                  "(InsideCircumcircle, CounterClockwise, Edges) incl. their zero sets; gp_strongb and closed_runb are "
+                  "evaluated per model-compared input",
+    "level_note": "Trusted: Coq kernel + vm_compute; hand-written model tied by differential correspondence only (go2coq "
+                  "cannot translate methods of the array type Triangle); bw_delaunay needs general position INCLUDING the "
+                  "super-triangle vertices (inputs where an input point is collinear / concyclic with super vertices are "
+                  "covered only by bw_delaunay_partial + closed_runb per input); coverage of the convex hull fails on "
+                  "/repo HEAD (known finding, bw_coverage_refuted, bw_output_exact); float64 rounding is outside the model",
     "technique": "Coq proof (reflection of a bounding-box / separating-edge / Fourier-Motzkin and in-circle checker over Q; "
-                 "invariants by induction over the insertion sequence; pencil-of-circles identity by ring) + vm_compute "
-                 "correspondence check",
+                 "invariant 'the state is the Delaunay triangulation of the inserted points' by induction over the insertion "
+                 "sequence; pencil-of-circles and radical-axis identities by ring; extremal choice over finite lists) + "
+                 "vm_compute correspondence check",
     "design_ref": "DESIGN.md §4 C20",
     "n_quick": 96, "n_thorough": 600,
-    "rule": "12 fixed corner cases (the repaired defect's input at 2^-7 and 2^-20, the known-finding example, a sparse "
-            "sliver that leaves input points without triangles, a 24-spoke wheel) + point sets in general position (no 3 collinear, no 4 "
+    "rule": "15 fixed corner cases (the repaired defect's input at 2^-7 and 2^-20, the known-finding example, a sparse "
+            "sliver that leaves input points without triangles, a 24-spoke wheel, a flat triangle followed / preceded by a "
+            "far point inside its circumcircle, a two-vertex hull pocket) + 24+n/4 direct calls of the exported predicates "
+            "(fourth point exactly on the circle, collinear / repeated corners, both windings, flat triangle and far point, "
+            "offsets to 2^40) + point sets in general position (no 3 collinear, no 4 "
             "concyclic: exact integer rejection): (i) integer grids of extent <= 127 (<= 254 for the large class) where "
             "every float64 operation of the implementation incl. the super-triangle tests is exact, 3-40 points "
             "model-compared, 1/16 of the cases 41-~125 points checker only, uniform / clustered / flat-hull / near-line / "
@@ -39,12 +47,18 @@ CFG = {
             "float64 predicate to have the exact sign with a 2^-40 relative margin; (iii) 1/8 wheels: 8-64 rim points in convex position (perturbed circle / "
             "ellipse / parabola arc, radius 150-3900, optional nested ring) plus 1-3 hub points near the centre inserted "
             "last, first or in the middle, admitted by the same faithful-run filter (cavities of up to ~60 triangles; the "
-            "largest cavity per case is recorded as max-cavity:*); (iv) 1/16 grid inputs with 1-3 exactly "
+            "largest cavity per case is recorded as max-cavity:*); (v) 1/16 far-reach inputs: a run of 3-6 nearly collinear "
+            "points (length 64-512 steps, spread 1-3) and 1-3 points 4..L^2/4h steps off the run, accepted only when the exact "
+            "replay removes a triangle lying 4/8/16/32/64 of its own perimeters away from the inserted point "
+            "(far-bad-triangle:*); (vi) 1/16 hull pockets: a long hull edge (2^8-2^12 steps, 11 directions) with 2-5 points "
+            "1-4 steps inside it plus 2-5 body points (several hull triangles dropped together: "
+            "known:two-or-more-triangles-dropped); (iv) 1/16 grid inputs with 1-3 exactly "
             "repeated points (outside the statement: judged on vertex identity, attribute lengths and the four conjuncts "
             "only); random insertion order; 3/4 of the cases scaled by 2^-20..2^20, half of those offset up to 2^30 (2^40 for "
             "slivers) with the metamorphic oracle 'same triangle set as unscaled'; distinct by (points, scale, offset, spare capacity); "
             "the slice handed to BowyerWatson is a window with spare capacity 0/1/2/3/4/16 and is read back after the "
-            "call; non-trivial = at least 4 points",
+            "call, and the mesh returned by the previous call is read again after the next call; inputs of at most 26 points carry "
+            "the harness' exact decision of strong general position, re-decided by gp_strongb; non-trivial = at least 4 points",
     "trusted": ["float64 arithmetic of the implementation is exact on the generated inputs by construction (bound "
                 "12*D^4 < 2^53 checked per case by the harness: exactOK) or, for the sliver class, sign-faithful with a "
                 "2^-40 margin on every predicate the run evaluates (exact big-integer shadow run in the harness: faithful); "
